@@ -34,6 +34,28 @@ class ExtractionError(Exception):
     pass
 
 
+class _Desugar(ast.NodeTransformer):
+    """Mechanical, semantics-preserving normalisation applied to the extracted text before it is executed symbolically
+    (stated in DESIGN 11.6):  `yield from (E for a in A for b in B if C)`  is executed as the nested loops
+    `for a in A: for b in B: if C: yield E`  (a generator expression consumed at once by `yield from`)."""
+
+    def visit_Expr(self, node):
+        self.generic_visit(node)
+        v = node.value
+        if isinstance(v, ast.YieldFrom) and isinstance(v.value, ast.GeneratorExp) and not any(g.is_async for g in v.value.generators):
+            ge = v.value
+            body = [ast.Expr(value=ast.Yield(value=ge.elt))]
+            for g in reversed(ge.generators):
+                for c in reversed(g.ifs):
+                    body = [ast.If(test=c, body=body, orelse=[])]
+                body = [ast.For(target=g.target, iter=g.iter, body=body, orelse=[], type_comment=None)]
+            new = body[0]
+            ast.copy_location(new, node)
+            ast.fix_missing_locations(new)
+            return new
+        return node
+
+
 _cache = {}
 OVERRIDES = {}      # relpath -> source text (in-memory mutants for the self-test of the generator only)
 
@@ -77,6 +99,9 @@ def get_function(relpath, qualname):
         node = found
     if not isinstance(node, ast.FunctionDef):
         raise ExtractionError('%s: %s is not a function' % (relpath, qualname))
+    if not getattr(node, '_desugared', False):
+        _Desugar().visit(node)
+        node._desugared = True
     return Extracted(relpath, qualname, node, ast.get_source_segment(src, node), cls)
 
 
